@@ -20,6 +20,10 @@ pub struct C18;
 
 const MAX_ITERS: [u32; 6] = [1, 2, 5, 20, 100, 1000];
 
+fn tier_max_nodes(tier: Tier) -> u32 {
+    tier.pick(2500, 70_000)
+}
+
 impl Prop for C18 {
     type Case = EigCase;
     fn id(&self) -> &'static str {
@@ -46,13 +50,15 @@ impl Prop for C18 {
                 }
             }
         }
+        // one graph beyond 2^16 nodes (positions no longer fit in 16 bits), weighted, with hubs
+        v.push(EigCase { g: GraphCase { kind: 1, n: 0, perm: 0, shape: 0, edges: vec![], wmode: 1, big_n: 66_000, big_seed: 11 }, tols: vec![120], weighted: true });
         v
     }
     fn strategy(&self, _tier: Tier) -> BoxedStrategy<EigCase> {
         fn me(n: usize) -> usize {
             n * 2 + 1
         }
-        let big = big_graph_strategy(&[0, 1], 200, 2500, &[0, 1]);
+        let big = big_graph_strategy(&[0, 1], 200, tier_max_nodes(_tier), &[0, 1]);
         (prop_oneof![3000 => graph_strategy(&SINGLE_KINDS, 1, 14, me, &[0, 1, 2, 3], 5), 1 => big], proptest::collection::vec(any::<u8>(), 3), any::<bool>()).prop_map(|(g, tols, weighted)| EigCase { g, tols, weighted }).boxed()
     }
     fn random_cases(&self, tier: Tier) -> u32 {
@@ -77,7 +83,17 @@ impl Prop for C18 {
                 off2 += wt(*w) * wt(*w) * if ng.directed { 1.0 } else { 2.0 };
             }
         }
-        let fro: f64 = (diag.iter().map(|x| x * x).sum::<f64>() + off2).sqrt();
+        let fro_all: f64 = (diag.iter().map(|x| x * x).sum::<f64>() + off2).sqrt();
+        // ||M d||_2 <= ||d||_1 (1 + max_j ||row_j(A)||_2) is a second sound bound; use the smaller
+        let mut row2 = vec![0.0f64; n];
+        for (i, j, w) in &ng.edges {
+            row2[*i] += wt(*w) * wt(*w);
+            if !ng.directed && i != j {
+                row2[*j] += wt(*w) * wt(*w);
+            }
+        }
+        let alt = 1.0 + row2.iter().fold(0.0f64, |a, b| a.max(*b)).sqrt();
+        let fro = fro_all.min(alt);
         // y = (I + A^T) v, sparse
         let step = |v: &[f64]| -> Vec<f64> {
             let mut y = v.to_vec();
@@ -97,8 +113,12 @@ impl Prop for C18 {
         if big {
             // n * tol must stay below 0.25 (see the derivation of the bound); fewer grid points
             tols = tols.into_iter().map(|t| t.min(0.2 / n as f64)).take(1).collect();
+            if n > 10_000 {
+                // a tight tolerance, so that the residual bound (about 250 n tol here) means something
+                tols = vec![2e-10];
+            }
         }
-        let max_iters: Vec<u32> = if big { vec![50, 400] } else { MAX_ITERS.to_vec() };
+        let max_iters: Vec<u32> = if n > 10_000 { vec![150] } else if big { vec![50, 400] } else { MAX_ITERS.to_vec() };
         tols.sort_by(|x, y| x.partial_cmp(y).unwrap());
         let mut grid: Vec<(u32, f64, bool)> = vec![];
         for mi in max_iters {
@@ -113,6 +133,9 @@ impl Prop for C18 {
                             return out;
                         }
                         Ok(Err(e)) => {
+                            if std::env::var("VERIF_DEBUG").is_ok() {
+                                eprintln!("C18 debug: n={} max_iter={} tol={:e} -> Err {}", n, mi, tol, kind_of(&e));
+                            }
                             out.check(kind_of(&e) == "PowerIterationFailedConvergence", "eigenvector_centrality/error/kind", || kind_of(&e));
                             outcome.get_or_insert(false);
                         }
@@ -138,10 +161,13 @@ impl Prop for C18 {
                             y.iter_mut().for_each(|e| *e /= ny);
                             let diff: f64 = y.iter().zip(&v).map(|(p, q)| (p - q) * (p - q)).sum::<f64>().sqrt();
                             let bound = 2.0 * fro * n as f64 * tol + 1e-9;
+                            if std::env::var("VERIF_DEBUG").is_ok() {
+                                eprintln!("C18 debug: n={} max_iter={} tol={:e} diff={:e} bound={:e} fro={}", n, mi, tol, diff, bound, fro);
+                            }
                             if diff > bound {
                                 out.fail(
                                     if ng.directed { "eigenvector_centrality/fixed_point/directed_residual_too_large" } else { "eigenvector_centrality/fixed_point/undirected_residual_too_large" },
-                                    format!("max_iter {} tol {:e}: one further step moves the vector by {:e} > bound {:e}; x = {:?}", mi, tol, diff, bound, v),
+                                    format!("max_iter {} tol {:e}: one further step moves the vector by {:e} > bound {:e}; x = {:?}{}", mi, tol, diff, bound, &v[..v.len().min(12)], if v.len() > 12 { " ..." } else { "" }),
                                 );
                                 return out;
                             }
